@@ -53,7 +53,7 @@ def run(ctx):
         raise vf.Infra("TLC printed %d vectors for %d cases" % (len(vecs), res.distinct))
     caught = {}
     for d in DEVS:
-        r = ctx.tlc("HttpApi", "MCdev.cfg", files={"MCdev.cfg": cfg("quick", [d], emit=False)}, expect_violation=True,
+        r = ctx.tlc("HttpApi", "MCdev.cfg", files={"MCdev.cfg": cfg("tiny", [d], emit=False)}, expect_violation=True,
                     dump_trace=False)
         if not r.violated:
             raise vf.Infra("deviation %s is not rejected by the oracle (vacuous oracle)" % d)
